@@ -25,13 +25,17 @@ def idRw : E → Prec → Option E := fun e _ => some e
 /-- the child fits a position that requires (Go) precedence `p` -/
 def FitsIn (p : Prec) (e : E) : Bool := e.isGroup || p ≤ e.prec || (p == opBitOr && e.prec == opCoalesce)
 
+/-- the left operand fits: either the (Go) precedence the printer uses for that position, or — when the printer
+    asks for more than the production (the left operand of `|` is printed at `OpBitXor`) — the production itself -/
+def leftFits (op : BOp) (x : E) : Bool := FitsIn op.left x || (!x.isGroup && opLeft op ≤ x.prec)
+
 mutual
 /-- the parser's well-formedness rule, with the Go tables -/
 def wfGo : E → Bool
   | var _ => true
   | lit _ => true
   | unary op x => FitsIn op.argPrec x && wfGo x
-  | bin op x y => FitsIn op.left x && FitsIn op.right y && wfGo x && wfGo y
+  | bin op x y => leftFits op x && FitsIn op.right y && wfGo x && wfGo y
   | .cond c x y => FitsIn opCoalesce c && FitsIn opAssign x && FitsIn opAssign y && wfGo c && wfGo x && wfGo y
   | comma l => decide (2 ≤ l.length) && wfGoItems l
   | call f args => FitsIn opCall f && wfGo f && wfGoItems args
@@ -46,9 +50,19 @@ end
 /-- what the printer guarantees of its output `t` for the input `e` in a context of precedence `p` -/
 structure Inv (p : Prec) (e t : E) : Prop where
   g : gwfA t = true
+  lv : FitsIn p e = true → levelOk p t = true
+  tg : assignable e = true → isTarget t = true
+  lo : e.isGroup = false → p ≠ 0 → min e.prec 14 ≤ lvl t
+
+/-- the invariant for an operand that fits its position -/
+structure InvF (p : Prec) (e t : E) : Prop where
+  g : gwfA t = true
   lv : levelOk p t = true
   tg : assignable e = true → isTarget t = true
   lo : e.isGroup = false → p ≠ 0 → min e.prec 14 ≤ lvl t
+
+theorem Inv.toF {p : Prec} {e t : E} (i : Inv p e t) (hf : FitsIn p e = true) : InvF p e t :=
+  ⟨i.g, i.lv hf, i.tg, i.lo⟩
 
 /-! ## facts about the regenerated tables (whole-table `decide`) -/
 
@@ -185,9 +199,11 @@ theorem isTarget_of_levelOk_assignable {p : Prec} {e t : E} (h : Inv p e t) (ha 
 /-! ## lists -/
 
 theorem mapO_items (rec : E → Prec → Option E)
-    (hrec : ∀ e p t, p ≤ 17 → wfGo e = true → FitsIn p e = true → rec e p = some t → Inv p e t)
+    (hrec : ∀ e p t, p ≤ 17 → wfGo e = true → rec e p = some t → Inv p e t)
     (l l' : List E) (h : mapO (fun a => rec a opAssign) l = some l') (hw : wfGoItems l = true) :
     gwfAItems l' = true ∧ l'.length = l.length := by
+  have hrecF : ∀ e p t, p ≤ 17 → wfGo e = true → FitsIn p e = true → rec e p = some t → InvF p e t :=
+    fun e p t hp hw hf h => (hrec e p t hp hw h).toF hf
   induction l generalizing l' with
   | nil => simp [mapO] at h; subst h; exact ⟨rfl, rfl⟩
   | cons a t ih =>
@@ -201,7 +217,7 @@ theorem mapO_items (rec : E → Prec → Option E)
       | some t' =>
         simp [ha, ht] at h
         subst h
-        have hi := hrec a opAssign a' (by simp [consts.2.1]) hw.1.2 hw.1.1 ha
+        have hi := hrecF a opAssign a' (by simp [consts.2.1]) hw.1.2 hw.1.1 ha
         obtain ⟨g1, g2⟩ := ih t' ht hw.2
         have hl : lvAssign ≤ lvl a' := by
           have := levelOk_mono hi.lv (Nat.le_refl _) (by simp [consts.2.1])
@@ -229,8 +245,8 @@ theorem eqne_ok (o : BOp) (ho : o = .eq ∨ o = .ne) (x' y' : E) (lx : 14 ≤ lv
 
 /-- result of the binary node proper -/
 theorem binCore_gwf (rec : E → Prec → Option E)
-    (hrec : ∀ e p t, p ≤ 17 → wfGo e = true → FitsIn p e = true → rec e p = some t → Inv p e t)
-    (op : BOp) (y x1 t : E) (hwx : wfGo x1 = true) (hfx : FitsIn op.left x1 = true)
+    (hrec : ∀ e p t, p ≤ 17 → wfGo e = true → rec e p = some t → Inv p e t)
+    (op : BOp) (y x1 t : E) (hwx : wfGo x1 = true) (hfx : leftFits op x1 = true)
     (hwy : wfGo y = true) (hfy : FitsIn op.right y = true)
     (ha : isAssignLike op = true → assignable x1 = true)
     (h : binCore rec op y x1 = some t) :
@@ -238,6 +254,36 @@ theorem binCore_gwf (rec : E → Prec → Option E)
   obtain ⟨hl1, hl2, hl3⟩ := t_left op
   obtain ⟨hr1, hr2, hr3⟩ := t_right op
   obtain ⟨hlp, hrp⟩ := left_pos op
+  have hrecF : ∀ e p t, p ≤ 17 → wfGo e = true → FitsIn p e = true → rec e p = some t → InvF p e t :=
+    fun e p t hp hw hf h => (hrec e p t hp hw h).toF hf
+  -- the printed left operand satisfies the production
+  have leftok : ∀ x', rec x1 op.left = some x' → leftOk op x' = true ∧ gwfA x' = true ∧
+      (assignable x1 = true → isTarget x' = true) := by
+    intro x' hx
+    have ix := hrec _ _ _ hl2 hwx hx
+    refine ⟨?_, ix.g, ix.tg⟩
+    by_cases hfit : FitsIn op.left x1 = true
+    · exact leftOk_of_levelOk op x' (ix.lv hfit)
+    · have h2 : x1.isGroup = false ∧ opLeft op ≤ x1.prec := by
+        simp only [leftFits, hfit, Bool.false_or, Bool.and_eq_true, Bool.not_eq_true', decide_eq_true_eq] at hfx
+        exact hfx
+      have hlt : x1.prec < op.left := by
+        simp only [FitsIn, h2.1, Bool.false_or, Bool.or_eq_true, decide_eq_true_eq, not_or, Nat.not_le] at hfit
+        exact hfit.1
+      have hlo := ix.lo h2.1 (by pomega)
+      have h14 : opLeft op ≤ 14 := by
+        have : ∀ o ∈ BOp.all, opLeft o ≤ 14 ∨ opLeft o = o.left := by decide
+        rcases this op (BOp.mem_all op) with h | h
+        · exact h
+        · pomega
+      have hle : opLeft op ≤ lvl x' := Nat.le_trans (Nat.le_min.mpr ⟨h2.2, h14⟩) hlo
+      by_cases hn : op = .nullish
+      · subst hn
+        have : lvBitOr ≤ lvl x' := by simpa [opLeft] using hle
+        simp [leftOk, this]
+      · have hform : leftOk op x' = decide (opLeft op ≤ lvl x') := by
+          cases op <;> first | exact absurd rfl hn | rfl
+        rw [hform]; simpa using hle
   unfold binCore at h
   -- a binary node built from two printed operands
   have build : ∀ (o3 : BOp) (x' y' : E), leftOk o3 x' = true → rightOkA o3 y' = true →
@@ -257,10 +303,10 @@ theorem binCore_gwf (rec : E → Prec → Option E)
       | some y' =>
         simp [hx, hy] at h
         subst h
-        have ix := hrec _ _ _ hl2 hwx hfx hx
-        have iy := hrec _ _ _ hr1 hwy hfy hy
-        refine ⟨build op x' y' (leftOk_of_levelOk op x' ix.lv) (rightOkA_of_levelOk op y' iy.lv) ?_ ix.g iy.g, ?_, ?_⟩
-        · intro hh; exact ix.tg (ha (by rw [(t_assign op).1]; exact hh))
+        obtain ⟨lx, gx, tx⟩ := leftok x' hx
+        have iy := hrecF _ _ _ hr1 hwy hfy hy
+        refine ⟨build op x' y' lx (rightOkA_of_levelOk op y' iy.lv) ?_ gx iy.g, ?_, ?_⟩
+        · intro hh; exact tx (ha (by rw [(t_assign op).1]; exact hh))
         · simp [lvl, t_prec op]
         · intro hn; subst hn; simp at hio
   · rw [if_neg hio] at h
@@ -290,8 +336,8 @@ theorem binCore_gwf (rec : E → Prec → Option E)
           simp [hx, hy] at h
           subst h
           have hr9 : (if neg then BOp.ne else BOp.eq).right = 9 := by cases neg <;> simp [t_eqops]
-          have ix := hrec _ _ _ hl2 (by rfl) (fitsIn_prim _ _ (by simp only [E.prec]; decide) hl2) hx
-          have iy := hrec (.lit .null) _ y' (by rw [hr9]; pomega) (by rfl) (fitsIn_prim _ _ (by simp only [E.prec]; decide) (by rw [hr9]; pomega)) hy
+          have ix := hrecF _ _ _ hl2 (by rfl) (fitsIn_prim _ _ (by simp only [E.prec]; decide) hl2) hx
+          have iy := hrecF (.lit .null) _ y' (by rw [hr9]; pomega) (by rfl) (fitsIn_prim _ _ (by simp only [E.prec]; decide) (by rw [hr9]; pomega)) hy
           have lx : 14 ≤ lvl x' := by
             have := ix.lo (by rfl) (by pomega)
             have h20 : (E.var v).prec = 20 := by simp only [E.prec]; decide
@@ -322,14 +368,21 @@ theorem binCore_gwf (rec : E → Prec → Option E)
       -- the printed operator has the table rows of `op`
       have hsame : o3.left = op.left ∧ o3.right = op.right ∧ opLevel o3 = opLevel op ∧ isAssignOp o3 = isAssignOp op ∧
           (op = .nullish → o3 = .nullish) ∧ opLeft o3 = opLeft op ∧ opRight o3 = opRight op ∧ isAssocOp o3 = isAssocOp op ∧
-          (isAssocOp op = true → o3 = op) := by
+          (isAssocOp op = true → o3 = op) ∧ (∀ z, leftOk o3 z = leftOk op z) := by
         subst ho3
         split
         · rename_i hc
           simp only [Bool.and_eq_true, Bool.or_eq_true, beq_iff_eq] at hc
-          rcases hc.1 with rfl | rfl <;> simp <;> decide
+          rcases hc.1 with rfl | rfl
+          · simp only [beq_self_eq_true, if_true]
+            exact ⟨by decide, by decide, by decide, by decide, by simp, by decide, by decide, by decide,
+              by simp [isAssocOp], fun z => by simp [leftOk, opLeft, isAssignOp, opLevel]⟩
+          · have hne : (BOp.sne == BOp.seq) = false := by decide
+            simp only [hne, Bool.false_eq_true, if_false]
+            exact ⟨by decide, by decide, by decide, by decide, by simp, by decide, by decide, by decide,
+              by simp [isAssocOp], fun z => by simp [leftOk, opLeft, isAssignOp, opLevel]⟩
         · simp
-      obtain ⟨s1, s2, s3, s4, s5, s6, s7, s8, s9⟩ := hsame
+      obtain ⟨s1, s2, s3, s4, s5, s6, s7, s8, s9, s10⟩ := hsame
       cases hx : rec x1 op.left with
       | none => simp [hx] at h
       | some x' =>
@@ -338,16 +391,14 @@ theorem binCore_gwf (rec : E → Prec → Option E)
         | some y' =>
           simp [hx, hy] at h
           subst h
-          have ix := hrec _ _ _ hl2 hwx hfx hx
-          have iy := hrec _ _ _ (by rw [s2]; exact hr1) hwy (by rw [s2]; exact hfy) hy
-          have lo3 : leftOk o3 x' = true := by
-            have := leftOk_of_levelOk o3 x' (by rw [s1]; exact ix.lv)
-            exact this
+          obtain ⟨lx, gx, tx⟩ := leftok x' hx
+          have iy := hrecF _ _ _ (by rw [s2]; exact hr1) hwy (by rw [s2]; exact hfy) hy
+          have lo3 : leftOk o3 x' = true := by rw [s10]; exact lx
           have ro3 : rightOkA o3 y' = true := rightOkA_of_levelOk o3 y' iy.lv
-          refine ⟨build o3 x' y' lo3 ro3 ?_ ix.g iy.g, ?_, ?_⟩
+          refine ⟨build o3 x' y' lo3 ro3 ?_ gx iy.g, ?_, ?_⟩
           · intro hh
             rw [s4] at hh
-            exact ix.tg (ha (by rw [(t_assign op).1]; exact hh))
+            exact tx (ha (by rw [(t_assign op).1]; exact hh))
           · simp [lvl, s3, t_prec op]
           · intro hn
             have := s5 hn
@@ -395,10 +446,12 @@ theorem assignable_not_undefined (n : String) (h : (n == "undefined") = true) : 
 
 /-- one step of the printer keeps the invariant if the recursive calls do -/
 theorem descend_gwf (rec : E → Prec → Option E)
-    (hrec : ∀ e p t, p ≤ 17 → wfGo e = true → FitsIn p e = true → rec e p = some t → Inv p e t)
-    (e : E) (p : Prec) (t : E) (hp : p ≤ 17) (hw : wfGo e = true) (hf : FitsIn p e = true)
+    (hrec : ∀ e p t, p ≤ 17 → wfGo e = true → rec e p = some t → Inv p e t)
+    (e : E) (p : Prec) (t : E) (hp : p ≤ 17) (hw : wfGo e = true)
     (h : descend idRw rec e p = some t) : Inv p e t := by
   obtain ⟨c0, c1, c2, c5, c14, c17, c19, c4, c3⟩ := consts
+  have hrecF : ∀ e p t, p ≤ 17 → wfGo e = true → FitsIn p e = true → rec e p = some t → InvF p e t :=
+    fun e p t hp hw hf h => (hrec e p t hp hw h).toF hf
   cases e with
   | var n =>
     simp only [descend] at h
@@ -407,19 +460,19 @@ theorem descend_gwf (rec : E → Prec → Option E)
       have hlt : ¬ (opMember < p) := (by rw [c19]; pomega)
       rw [if_neg hlt] at h
       injection h with h; subst h
-      refine ⟨undefIdx_ok.1, levelOk_of_le (by rw [undefIdx_ok.2]; pomega), ?_, ?_⟩
+      refine ⟨undefIdx_ok.1, fun _ => levelOk_of_le (by rw [undefIdx_ok.2]; pomega), ?_, ?_⟩
       · intro ha; rw [assignable_not_undefined n hu] at ha; cases ha
       · intro _ _; rw [undefIdx_ok.2]; pomega
     · rw [if_neg hu] at h
       split at h
       · cases h
       · injection h with h; subst h
-        exact ⟨rfl, levelOk_of_le (by simp [lvl, lvPrimary]; pomega), fun _ => rfl,
+        exact ⟨rfl, fun _ => levelOk_of_le (by simp [lvl, lvPrimary]; pomega), fun _ => rfl,
           fun _ _ => (by simp [lvl, lvPrimary]; pomega)⟩
   | lit l =>
     have hna : assignable (.lit l) = false := by simp [assignable, E.inner]
     have prim : ∀ l', Inv p (.lit l) (.lit l') := fun l' =>
-      ⟨rfl, levelOk_of_le (by simp [lvl, lvPrimary]; pomega), fun ha => (by rw [hna] at ha; cases ha),
+      ⟨rfl, fun _ => levelOk_of_le (by simp [lvl, lvPrimary]; pomega), fun ha => (by rw [hna] at ha; cases ha),
         fun _ _ => (by simp [lvl, lvPrimary]; pomega)⟩
     have notn : ∀ k, descend idRw rec (.lit l) p =
         some (if opUnary < p then E.group (.unary .not (.lit (.num k))) else .unary .not (.lit (.num k))) → Inv p (.lit l) t := by
@@ -427,11 +480,11 @@ theorem descend_gwf (rec : E → Prec → Option E)
       rw [hk] at h
       injection h with h; subst h
       split
-      · exact ⟨(by simp [gwfA, isUpdateOp, lvl, lvUnary, lvPrimary]), levelOk_of_le (by simp [lvl, lvPrimary]; pomega), fun ha => (by rw [hna] at ha; cases ha),
+      · exact ⟨(by simp [gwfA, isUpdateOp, lvl, lvUnary, lvPrimary]), fun _ => levelOk_of_le (by simp [lvl, lvPrimary]; pomega), fun ha => (by rw [hna] at ha; cases ha),
           fun _ _ => (by simp [lvl, lvPrimary]; pomega)⟩
       · rename_i hlt
         have : p ≤ 14 := by rw [c14] at hlt; pomega
-        exact ⟨(by simp [gwfA, isUpdateOp, lvl, lvUnary, lvPrimary]), levelOk_of_le (by simp [lvl, isUpdateOp, lvUnary]; pomega),
+        exact ⟨(by simp [gwfA, isUpdateOp, lvl, lvUnary, lvPrimary]), fun _ => levelOk_of_le (by simp [lvl, isUpdateOp, lvUnary]; pomega),
           fun ha => (by rw [hna] at ha; cases ha), fun _ _ => Nat.le_trans (Nat.min_le_right _ _) (by simp [lvl, isUpdateOp, lvUnary])⟩
     cases l with
     | true => exact notn 0 (by simp [descend])
@@ -462,8 +515,9 @@ theorem descend_gwf (rec : E → Prec → Option E)
         split at h
         · cases h
         -- level of the result against the context
-        have lev : ∀ t', op.prec ≤ lvl t' → (op = .nullish → sameOpNode .nullish t' = true) → levelOk p t' = true := by
-          intro t' h1 h2
+        have lev : ∀ t', op.prec ≤ lvl t' → (op = .nullish → sameOpNode .nullish t' = true) →
+            FitsIn p (.bin op x y) = true → levelOk p t' = true := by
+          intro t' h1 h2 hf
           simp only [FitsIn, E.isGroup, Bool.false_or, Bool.or_eq_true, decide_eq_true_eq, Bool.and_eq_true,
             beq_iff_eq, hprec] at hf
           rcases hf with hf | ⟨hf5, hf2⟩
@@ -523,7 +577,7 @@ theorem descend_gwf (rec : E → Prec → Option E)
                   have := snoc_of_getLast? l last hl
                   rw [this]; simp
                 obtain ⟨_, hwl⟩ := wfGoItems_mem l hitems last hmem
-                have hfl : FitsIn op.left last = true := by simp [FitsIn, hprec2]
+                have hfl : leftFits op last = true := by simp [leftFits, FitsIn, hprec2]
                 have hnal : isAssignLike op = false := by
                   cases hop : isAssignLike op
                   · rfl
@@ -539,14 +593,15 @@ theorem descend_gwf (rec : E → Prec → Option E)
                     List.length_dropLast]
                   refine ⟨by omega, ?_⟩
                   simpa [lvAssign] using h1
-                · rw [hp0]; simp [levelOk]
+                · intro _; rw [hp0]; simp [levelOk]
   | unary op x =>
     simp only [wfGo, Bool.and_eq_true] at hw
     obtain ⟨hfx, hwx⟩ := hw
     obtain ⟨u1, u2, u3, u4⟩ := t_unary op
     have hna : assignable (.unary op x) = false := by simp [assignable, E.inner]
     have hprec : (E.unary op x).prec = op.prec := rfl
-    have hple : p ≤ op.prec := by
+    have hple : FitsIn p (.unary op x) = true → p ≤ op.prec := by
+      intro hf
       simp only [FitsIn, E.isGroup, Bool.false_or, Bool.or_eq_true, decide_eq_true_eq, Bool.and_eq_true,
         beq_iff_eq, hprec] at hf
       rcases hf with hf | ⟨_, hf2⟩
@@ -565,11 +620,11 @@ theorem descend_gwf (rec : E → Prec → Option E)
       -- the generic unary node over a printed operand
       have gen : ∀ x', rec x op.argPrec = some x' → Inv p (.unary op x) (.unary op x') := by
         intro x' hx'
-        have ix := hrec _ _ _ u1 hwx hfx hx'
+        have ix := hrecF _ _ _ u1 hwx hfx hx'
         have l14 : 14 ≤ lvl x' := levelOk_mono ix.lv u2 (by pomega)
         have larg : op.argPrec ≤ lvl x' := levelOk_mono ix.lv (Nat.le_refl _) (by pomega)
         have hlv : lvl (E.unary op x') = op.prec := by simp [lvl, u3, lvUpdate, lvUnary]
-        refine ⟨?_, levelOk_of_le (by rw [hlv]; exact hple), fun ha' => (by rw [hna] at ha'; cases ha'), ?_⟩
+        refine ⟨?_, fun hf => levelOk_of_le (by rw [hlv]; exact hple hf), fun ha' => (by rw [hna] at ha'; cases ha'), ?_⟩
         · simp only [gwfA, ix.g, Bool.and_true, Bool.and_eq_true, decide_eq_true_eq]
           refine ⟨?_, by simpa [lvUnary] using l14⟩
           split
@@ -588,7 +643,6 @@ theorem descend_gwf (rec : E → Prec → Option E)
         cases o with
         | none => simp at hm
         | some x' => simp at hm; subst hm; exact gen x' ho.symm
-      have hp14 : p ≤ 15 := by rw [u3] at hple; split at hple <;> pomega
       split at h
       · exact genm _ rfl h
       · split at h
@@ -597,8 +651,7 @@ theorem descend_gwf (rec : E → Prec → Option E)
           simp only [Bool.and_eq_true, beq_iff_eq] at hv
           have hop : op = .void := hv.1
           subst hop
-          have : p ≤ 14 := by simpa [u3, isUpdateOp] using hple
-          exact ⟨undefIdx_ok.1, levelOk_of_le (by rw [undefIdx_ok.2]; pomega), fun ha' => (by rw [hna] at ha'; cases ha'),
+          exact ⟨undefIdx_ok.1, fun _ => levelOk_of_le (by rw [undefIdx_ok.2]; pomega), fun ha' => (by rw [hna] at ha'; cases ha'),
             fun _ _ => (by rw [undefIdx_ok.2]; pomega)⟩
         · cases hn : (if op == .not then notLit x else none) with
           | some r =>
@@ -608,14 +661,14 @@ theorem descend_gwf (rec : E → Prec → Option E)
             · rw [if_pos hop] at hn
               have : op = .not := by simpa using hop
               subst this
-              have : p ≤ 14 := by simpa [u3, isUpdateOp] using hple
+              have hp14 : FitsIn p (.unary .not x) = true → p ≤ 14 := fun hf => by simpa [u3, isUpdateOp] using hple hf
               unfold notLit at hn
               split at hn
               · injection hn with hn; subst hn
-                exact ⟨by simp [gwfA, isUpdateOp, lvl, lvUnary, lvPrimary], levelOk_of_le (by simp [lvl, isUpdateOp, lvUnary]; pomega),
+                exact ⟨by simp [gwfA, isUpdateOp, lvl, lvUnary, lvPrimary], fun hf => levelOk_of_le (by have := hp14 hf; simp [lvl, isUpdateOp, lvUnary]; pomega),
                   fun ha' => (by rw [hna] at ha'; cases ha'), fun _ _ => Nat.le_trans (Nat.min_le_right _ _) (by simp [lvl, isUpdateOp, lvUnary])⟩
               · injection hn with hn; subst hn
-                exact ⟨by simp [gwfA, isUpdateOp, lvl, lvUnary, lvPrimary], levelOk_of_le (by simp [lvl, isUpdateOp, lvUnary]; pomega),
+                exact ⟨by simp [gwfA, isUpdateOp, lvl, lvUnary, lvPrimary], fun hf => levelOk_of_le (by have := hp14 hf; simp [lvl, isUpdateOp, lvUnary]; pomega),
                   fun ha' => (by rw [hna] at ha'; cases ha'), fun _ _ => Nat.le_trans (Nat.min_le_right _ _) (by simp [lvl, isUpdateOp, lvUnary])⟩
               · cases hn
             · rw [if_neg hop] at hn; cases hn
@@ -631,7 +684,7 @@ theorem descend_gwf (rec : E → Prec → Option E)
       simp only [hd] at h
       split at h
       · injection h with h; subst h
-        exact ⟨by simp [gwfA, lvl, lvCall, lvPrimary], levelOk_of_le (by simp [lvl, chainLvl, lvMember]; pomega),
+        exact ⟨by simp [gwfA, lvl, lvCall, lvPrimary], fun _ => levelOk_of_le (by simp [lvl, chainLvl, lvMember]; pomega),
           fun _ => rfl, fun _ _ => Nat.le_trans (Nat.min_le_right _ _) (by simp [lvl, chainLvl, lvMember])⟩
       · cases h
     | none =>
@@ -644,10 +697,10 @@ theorem descend_gwf (rec : E → Prec → Option E)
       | some x' =>
         simp [hx] at h
         subst h
-        have ix := hrec _ _ _ (Nat.le_refl _) hwx (by rw [c17] at hfx; exact hfx) hx
+        have ix := hrecF _ _ _ (Nat.le_refl _) hwx (by rw [c17] at hfx; exact hfx) hx
         have l17 : 17 ≤ lvl x' := levelOk_mono ix.lv (Nat.le_refl _) (by decide)
         have := chainLvl_cases x'
-        exact ⟨by simp [gwfA, ix.g, lvCall, l17], levelOk_of_le (by simp [lvl]; pomega), fun _ => rfl,
+        exact ⟨by simp [gwfA, ix.g, lvCall, l17], fun _ => levelOk_of_le (by simp [lvl]; pomega), fun _ => rfl,
           fun _ _ => (by simp [lvl]; pomega)⟩
   | index x y =>
     simp only [wfGo, Bool.and_eq_true] at hw
@@ -660,11 +713,11 @@ theorem descend_gwf (rec : E → Prec → Option E)
     | none => simp [hx] at h
     | some x' =>
       simp only [hx] at h
-      have ix := hrec _ _ _ (Nat.le_refl _) hwx (by rw [c17] at hfx; exact hfx) hx
+      have ix := hrecF _ _ _ (Nat.le_refl _) hwx (by rw [c17] at hfx; exact hfx) hx
       have l17 : 17 ≤ lvl x' := levelOk_mono ix.lv (Nat.le_refl _) (by decide)
       have hc := chainLvl_cases x'
       have dotcase : ∀ s0, Inv p (.index x y) (.dot x' s0) := fun s0 =>
-        ⟨by simp [gwfA, ix.g, lvCall, l17], levelOk_of_le (by simp [lvl]; pomega), fun _ => rfl,
+        ⟨by simp [gwfA, ix.g, lvCall, l17], fun _ => levelOk_of_le (by simp [lvl]; pomega), fun _ => rfl,
           fun _ _ => (by simp [lvl]; pomega)⟩
       have idxcase : ∀ o : Option E, o = rec y opExpr → o.map (E.index x') = some t → Inv p (.index x y) t := by
         intro o ho hm
@@ -672,8 +725,8 @@ theorem descend_gwf (rec : E → Prec → Option E)
         | none => simp at hm
         | some y' =>
           simp at hm; subst hm
-          have iy := hrec _ _ _ (by rw [c0]; pomega) hwy (by simp [FitsIn, c0]) ho.symm
-          exact ⟨by simp [gwfA, ix.g, iy.g, lvCall, l17], levelOk_of_le (by simp [lvl]; pomega), fun _ => rfl,
+          have iy := hrecF _ _ _ (by rw [c0]; pomega) hwy (by simp [FitsIn, c0]) ho.symm
+          exact ⟨by simp [gwfA, ix.g, iy.g, lvCall, l17], fun _ => levelOk_of_le (by simp [lvl]; pomega), fun _ => rfl,
             fun _ _ => (by simp [lvl]; pomega)⟩
       cases hs : strLit? y with
       | some s0 =>
@@ -699,15 +752,15 @@ theorem descend_gwf (rec : E → Prec → Option E)
         rcases hdrop with h1 | ⟨h1, h2⟩
         · left; right; exact h1
         · right; exact ⟨h2, h1⟩
-      have ix := hrec _ _ _ hp hw hfx h
-      exact ⟨ix.g, ix.lv, fun ha => ix.tg (by simpa [assignable, E.inner] using ha), fun hg => by simp [E.isGroup] at hg⟩
+      have ix := hrec _ _ _ hp hw h
+      exact ⟨ix.g, fun _ => ix.lv hfx, fun ha => ix.tg (by simpa [assignable, E.inner] using ha), fun hg => by simp [E.isGroup] at hg⟩
     · cases hx : rec x opExpr with
       | none => simp [hx] at h
       | some t' =>
         simp [hx] at h
         subst h
-        have ix := hrec _ _ _ (by rw [c0]; pomega) hw (by simp [FitsIn, c0]) hx
-        exact ⟨by simp [gwfA, ix.g], levelOk_of_le (by simp [lvl, lvPrimary]; pomega),
+        have ix := hrecF _ _ _ (by rw [c0]; pomega) hw (by simp [FitsIn, c0]) hx
+        exact ⟨by simp [gwfA, ix.g], fun _ => levelOk_of_le (by simp [lvl, lvPrimary]; pomega),
           fun ha => (by simp only [isTarget]; exact ix.tg (by simpa [assignable, E.inner] using ha)),
           fun hg => by simp [E.isGroup] at hg⟩
   | call f args =>
@@ -722,18 +775,19 @@ theorem descend_gwf (rec : E → Prec → Option E)
       | some args' =>
         simp [hf', ha] at h
         subst h
-        have i1 := hrec _ _ _ (by rw [c17]; pomega) hwf hff hf'
+        have i1 := hrecF _ _ _ (by rw [c17]; pomega) hwf hff hf'
         have l17 : 17 ≤ lvl f' := by
           have := levelOk_mono i1.lv (Nat.le_refl _) (by rw [c17]; decide)
           rw [c17] at this; exact this
         obtain ⟨ga, _⟩ := mapO_items rec hrec args args' ha hwa
-        exact ⟨by simp [gwfA, i1.g, ga, lvCall, l17], levelOk_of_le (by simp [lvl, lvCall]; pomega),
+        exact ⟨by simp [gwfA, i1.g, ga, lvCall, l17], fun _ => levelOk_of_le (by simp [lvl, lvCall]; pomega),
           fun ha' => by simp [assignable, E.inner] at ha', fun _ _ => (by simp [lvl, lvCall]; pomega)⟩
   | cond c x y =>
     simp only [wfGo, Bool.and_eq_true] at hw
     obtain ⟨⟨⟨⟨⟨hfc, hfx⟩, hfy⟩, hwc⟩, hwx⟩, hwy⟩ := hw
     have hprec : (E.cond c x y).prec = opAssign := rfl
-    have hp1 : p ≤ 1 := by
+    have hp1 : FitsIn p (.cond c x y) = true → p ≤ 1 := by
+      intro hf
       simp only [FitsIn, E.isGroup, Bool.false_or, Bool.or_eq_true, decide_eq_true_eq, Bool.and_eq_true,
         beq_iff_eq, hprec] at hf
       rcases hf with hf | ⟨_, hf2⟩
@@ -751,9 +805,9 @@ theorem descend_gwf (rec : E → Prec → Option E)
         | some y' =>
           simp [hc, hx, hy] at h
           subst h
-          have ic := hrec _ _ _ (by rw [c2]; pomega) hwc hfc hc
-          have ixx := hrec _ _ _ (by rw [c1]; pomega) hwx hfx hx
-          have iy := hrec _ _ _ (by rw [c1]; pomega) hwy hfy hy
+          have ic := hrecF _ _ _ (by rw [c2]; pomega) hwc hfc hc
+          have ixx := hrecF _ _ _ (by rw [c1]; pomega) hwx hfx hx
+          have iy := hrecF _ _ _ (by rw [c1]; pomega) hwy hfy hy
           have lc : 2 ≤ lvl c' := by
             have := levelOk_mono ic.lv (Nat.le_refl _) (by rw [c2]; decide); rw [c2] at this; exact this
           have lx : 1 ≤ lvl x' := by
@@ -761,13 +815,14 @@ theorem descend_gwf (rec : E → Prec → Option E)
           have ly : 1 ≤ lvl y' := by
             have := levelOk_mono iy.lv (Nat.le_refl _) (by rw [c1]; decide); rw [c1] at this; exact this
           exact ⟨by simp [gwfA, ic.g, ixx.g, iy.g, lvShort, lvAssign, lc, lx, ly],
-            levelOk_of_le (by simp [lvl, lvAssign]; exact hp1),
+            fun hf => levelOk_of_le (by simp [lvl, lvAssign]; exact hp1 hf),
             fun ha' => by simp [assignable, E.inner] at ha', fun _ _ => by simp [lvl, lvAssign, hprec, c1]⟩
   | comma l =>
     simp only [wfGo, Bool.and_eq_true, decide_eq_true_eq] at hw
     obtain ⟨hlen, hitems⟩ := hw
     have hprec : (E.comma l).prec = opExpr := rfl
-    have hp0 : p = 0 := by
+    have hp0 : FitsIn p (.comma l) = true → p = 0 := by
+      intro hf
       simp only [FitsIn, E.isGroup, Bool.false_or, Bool.or_eq_true, decide_eq_true_eq, Bool.and_eq_true,
         beq_iff_eq, hprec] at hf
       rcases hf with hf | ⟨_, hf2⟩
@@ -780,18 +835,148 @@ theorem descend_gwf (rec : E → Prec → Option E)
       simp [hl] at h
       subst h
       obtain ⟨g, hlen'⟩ := mapO_items rec hrec l l' hl hitems
-      exact ⟨by simp [gwfA, g, hlen', hlen], by rw [hp0]; simp [levelOk],
-        fun ha' => by simp [assignable, E.inner] at ha', fun _ hne => absurd hp0 hne⟩
+      exact ⟨by simp [gwfA, g, hlen', hlen], fun hf => (by rw [hp0 hf]; simp [levelOk]),
+        fun ha' => by simp [assignable, E.inner] at ha', fun _ _ => (by rw [hprec, c0]; simp)⟩
 
 /-- the printer's output is a derivation tree that fits its context -/
-theorem printT_gwf : ∀ (fuel : Nat) (e : E) (p : Prec) (t : E), p ≤ 17 → wfGo e = true → FitsIn p e = true →
+theorem printT_gwf : ∀ (fuel : Nat) (e : E) (p : Prec) (t : E), p ≤ 17 → wfGo e = true →
     printT fuel e p = some t → Inv p e t := by
   intro fuel
   induction fuel with
-  | zero => intro e p t _ _ _ h; simp [printT, minGen] at h
+  | zero => intro e p t _ _ h; simp [printT, minGen] at h
   | succ n ih =>
-    intro e p t hp hw hf h
+    intro e p t hp hw h
     simp only [printT, minGen] at h
-    exact descend_gwf (minGen (fun e _ => some e) n) ih e p t hp hw hf h
+    exact descend_gwf (minGen (fun e _ => some e) n) ih e p t hp hw h
+
+/-! ## the parser's trees: every derivation tree of the (strict) grammar has the shape `wfGo` -/
+
+theorem memberPrec_eq (x : E) : x.memberPrec = chainLvl x := by
+  have c17 : opCall = 17 := by decide
+  have c19 : opMember = 19 := by decide
+  induction x using E.ind with
+  | hdot x n ih => simpa [E.memberPrec, chainLvl] using ih
+  | hindex x y ih _ => simpa [E.memberPrec, chainLvl] using ih
+  | hvar n => simp [E.memberPrec, chainLvl, c19, lvMember]
+  | hlit l => simp [E.memberPrec, chainLvl, c19, lvMember]
+  | hgroup x _ => simp [E.memberPrec, chainLvl, c19, lvMember]
+  | _ => simp [E.memberPrec, chainLvl, c17, lvCall]
+
+/-- Go's `exprPrec` of a node that is not a group is the level of its production -/
+theorem prec_eq_lvl (x : E) (h : x.isGroup = false) : x.prec = lvl x := by
+  cases x with
+  | var n => simp only [E.prec, lvl]; decide
+  | lit l => simp only [E.prec, lvl]; decide
+  | unary op y => simp only [E.prec, lvl, (t_unary op).2.2.1, lvUpdate, lvUnary]
+  | bin op y z => simp only [E.prec, lvl, t_prec op]
+  | cond c y z => simp only [E.prec, lvl]; decide
+  | comma l => simp only [E.prec, lvl]; decide
+  | call f a => simp only [E.prec, lvl]; decide
+  | dot y n => simp only [E.prec, lvl, memberPrec_eq]
+  | index y z => simp only [E.prec, lvl, memberPrec_eq]
+  | group y => simp [E.isGroup] at h
+
+theorem fitsIn_of_lvl (p : Prec) (x : E) (h : p ≤ lvl x) : FitsIn p x = true := by
+  cases hg : x.isGroup
+  · have := prec_eq_lvl x hg
+    simp [FitsIn, hg, this, h]
+  · simp [FitsIn, hg]
+
+theorem t_right_le (op : BOp) : op.right ≤ opRight op ∧ op.left ≤ 17 := by
+  have : ∀ o ∈ BOp.all, o.right ≤ opRight o ∧ o.left ≤ 17 := by decide
+  exact this op (BOp.mem_all op)
+
+theorem wfGoItems_of (l : List E) (ih : ∀ a ∈ l, gwf a = true → wfGo a = true) (h : gwfItems l = true) :
+    wfGoItems l = true := by
+  induction l with
+  | nil => rfl
+  | cons a t iht =>
+    simp only [gwfItems, Bool.and_eq_true, decide_eq_true_eq] at h
+    have c1 : opAssign = 1 := by decide
+    simp only [wfGoItems, Bool.and_eq_true]
+    refine ⟨⟨fitsIn_of_lvl _ _ (by rw [c1]; simpa [lvAssign] using h.1.1), ih a (List.mem_cons_self) h.1.2⟩,
+      iht (fun b hb => ih b (List.mem_cons_of_mem _ hb)) h.2⟩
+
+theorem leftOk_nullish (x : E) (h : leftOk .nullish x = true) : lvBitOr ≤ lvl x ∨ ∃ a b, x = .bin .nullish a b := by
+  simp only [leftOk, Bool.or_eq_true, decide_eq_true_eq] at h
+  rcases h with h | h
+  · left; exact h
+  · right
+    cases x with
+    | bin o a b =>
+      cases o <;> first | exact ⟨a, b, rfl⟩ | (simp at h)
+    | _ => simp at h
+
+/-- a derivation tree of the ECMA-262 expression grammar (strict reading) satisfies the printer's input condition -/
+theorem gwf_wfGo (e : E) (h : gwf e = true) : wfGo e = true := by
+  obtain ⟨c0, c1, c2, c5, c14, c17, c19, c4, c3⟩ := consts
+  induction e using E.ind with
+  | hvar n => rfl
+  | hlit l => rfl
+  | hun op x ih =>
+    simp only [gwf, Bool.and_eq_true, decide_eq_true_eq] at h
+    obtain ⟨⟨hup, h14⟩, hg⟩ := h
+    simp only [wfGo, Bool.and_eq_true]
+    refine ⟨?_, ih hg⟩
+    obtain ⟨_, _, _, u4⟩ := t_unary op
+    by_cases hpost : op = .postinc ∨ op = .postdec
+    · have h16 := u4 hpost
+      have : lvLHS ≤ lvl x := by
+        rcases hpost with rfl | rfl <;> exact (by simpa [isUpdateOp] using hup : _ ∧ lvLHS ≤ lvl x).2
+      exact fitsIn_of_lvl _ _ (by rw [h16]; simpa [lvLHS] using this)
+    · have harg : op.argPrec = 14 := by
+        cases op <;> first | (exfalso; exact hpost (Or.inl rfl)) | (exfalso; exact hpost (Or.inr rfl)) | decide
+      exact fitsIn_of_lvl _ _ (by rw [harg]; simpa [lvUnary] using h14)
+  | hbin op x y ihx ihy =>
+    simp only [gwf, Bool.and_eq_true, decide_eq_true_eq] at h
+    obtain ⟨⟨⟨⟨hl, hr⟩, _⟩, hgx⟩, hgy⟩ := h
+    simp only [wfGo, Bool.and_eq_true]
+    refine ⟨⟨⟨?_, ?_⟩, ihx hgx⟩, ihy hgy⟩
+    · -- left operand
+      unfold leftFits
+      by_cases hn : op = .nullish
+      · subst hn
+        have h5 : BOp.nullish.left = 5 := by decide
+        rcases leftOk_nullish x hl with hl | ⟨a, b, rfl⟩
+        · have := fitsIn_of_lvl BOp.nullish.left x (by rw [h5]; simpa [lvBitOr] using hl)
+          simp [this]
+        · have hp : (E.bin BOp.nullish a b).prec = 2 := by simp only [E.prec]; decide
+          simp [FitsIn, E.isGroup, hp, h5, c5, c2]
+      · have hform : leftOk op x = decide (opLeft op ≤ lvl x) := by
+          cases op <;> first | exact absurd rfl hn | rfl
+        rw [hform] at hl
+        have hle : opLeft op ≤ lvl x := by simpa using hl
+        cases hg : x.isGroup
+        · have := prec_eq_lvl x hg
+          simp [hg, this, hle]
+        · simp [FitsIn, hg]
+    · exact fitsIn_of_lvl _ _ (Nat.le_trans (t_right_le op).1 hr)
+  | hcond c x y ihc ihx ihy =>
+    simp only [gwf, Bool.and_eq_true, decide_eq_true_eq] at h
+    obtain ⟨⟨⟨⟨⟨h1, h2⟩, h3⟩, g1⟩, g2⟩, g3⟩ := h
+    simp only [wfGo, Bool.and_eq_true]
+    exact ⟨⟨⟨⟨⟨fitsIn_of_lvl _ _ (by rw [c2]; simpa [lvShort] using h1), fitsIn_of_lvl _ _ (by rw [c1]; simpa [lvAssign] using h2)⟩,
+      fitsIn_of_lvl _ _ (by rw [c1]; simpa [lvAssign] using h3)⟩, ihc g1⟩, ihx g2⟩, ihy g3⟩
+  | hcomma l ih =>
+    simp only [gwf, Bool.and_eq_true, decide_eq_true_eq] at h
+    simp only [wfGo, Bool.and_eq_true, decide_eq_true_eq]
+    exact ⟨h.1, wfGoItems_of l ih h.2⟩
+  | hcall f args ihf iha =>
+    simp only [gwf, Bool.and_eq_true, decide_eq_true_eq] at h
+    obtain ⟨⟨h1, g1⟩, g2⟩ := h
+    simp only [wfGo, Bool.and_eq_true]
+    exact ⟨⟨fitsIn_of_lvl _ _ (by rw [c17]; simpa [lvCall] using h1), ihf g1⟩, wfGoItems_of args iha g2⟩
+  | hdot x n ih =>
+    simp only [gwf, Bool.and_eq_true, decide_eq_true_eq] at h
+    simp only [wfGo, Bool.and_eq_true]
+    exact ⟨fitsIn_of_lvl _ _ (by rw [c17]; simpa [lvCall] using h.1), ih h.2⟩
+  | hindex x y ihx ihy =>
+    simp only [gwf, Bool.and_eq_true, decide_eq_true_eq] at h
+    simp only [wfGo, Bool.and_eq_true]
+    exact ⟨⟨fitsIn_of_lvl _ _ (by rw [c17]; simpa [lvCall] using h.1.1), ihx h.1.2⟩, ihy h.2⟩
+  | hgroup x ih =>
+    simp only [gwf] at h
+    simp only [wfGo]
+    exact ih h
 
 end Verif.Proofs.JsPrintGwf
